@@ -126,7 +126,7 @@ def parse_tlc_output(res, out, keep_beh=True):
         res.violated = "invariant:" + m.group(1)
     elif re.search(r"Error: Action property (\S+) is violated", out):
         res.violated = "actionproperty:" + re.search(r"Error: Action property (\S+) is violated", out).group(1)
-    elif "Temporal properties were violated" in out:
+    elif "Temporal properties were violated" in out or re.search(r"Temporal property \S+ was violated", out):
         res.violated = "property"
     elif "Error: Deadlock reached" in out:
         res.violated = "deadlock"
